@@ -21,8 +21,10 @@ DESIGN_REF = "DESIGN.md section 6 C04"
 CLASSES = ["array", "linked_list", "dlinked_list"]
 INIT = {"a": [], "b": {"live": False, "s": []}, "it": -1}
 SCOPE = {"quick": 3, "thorough": 5}      # NE of the cfg files
-BIG_NE = 40                              # NE of direction B (VecBagTrace.cfg)
+BIG_NE = 40                              # element values of the random histories of direction B
 BIG_LEN = 300
+SWEEP_SIZES = {"quick": [8, 16, 32, 64, 128, 256, 512, 1024], "thorough": [8, 16, 32, 64, 128, 256, 512, 1024, 2048, 4096, 8192]}
+SWEEP_NE = {"quick": 2400, "thorough": 16800}      # <= NE of VecBagTrace.cfg
 
 
 def argclass(e):
@@ -34,7 +36,7 @@ def argclass(e):
     parts = ["size=0" if n == 0 else ("size=1" if n == 1 else "size>1")]
     if e["pre"]["b"]["live"] and not onb:
         parts.append("copy-live")
-    if op in ("insert", "remove", "find", "contains", "b_insert", "b_remove", "b_find"):
+    if op in ("insert", "remove", "find", "contains", "b_insert", "b_remove", "b_find", "remove_own"):
         v = e["args"][0]
         if v in s:
             c = s.count(v)
@@ -95,6 +97,10 @@ def gen_history(rnd, nops, ne, maxlen):
         elif r < 0.30 and len(have) < maxlen:
             c = "insert %d" % e
             have.append(e)
+        elif r < 0.34 and have and bhave is None:
+            p = rnd.choice([min(have), max(have), rnd.choice(have)])
+            c = "remove_own %d" % p            # aliased argument: the probe is the stored element itself
+            have.remove(p)
         elif r < 0.55:
             c = "remove %d" % p
             if p in have:
@@ -138,24 +144,100 @@ def gen_history(rnd, nops, ne, maxlen):
     return lines
 
 
-def trace_validation(ctx, exe, corrupt=None):
-    """Direction (B): long random histories on vectors of up to 300 elements recorded on each class, validated by TLC."""
+def gen_sweep(sizes, ne):
+    """Size-sweep family (direction B, deterministic): ONE execution that grows a vector through the sizes n-1, n, n+1 for
+    every n in `sizes` and at each of these sizes runs every operation of the model at the position classes first / second /
+    middle / next-to-last / last / absent (below, between, above), with and without duplicates of the end elements.
+    `have` mirrors the content only to pick arguments; TLC evaluating VecBagTrace on the recorded events is the oracle."""
+    lines = []
+    have = set()
+    base = 200
+    state = {"nextfill": base, "front": base - 1}
+
+    def battery():
+        ks = sorted(have)
+        n = len(ks)
+        pos = [ks[0], ks[min(1, n - 1)], ks[n // 2], ks[max(0, n - 2)], ks[-1]]
+        gap = next((k + 1 for k in ks if k + 1 not in have and k + 1 < ks[-1]), None)
+        absent = [0, ne + 1, ks[0] - 1, ks[-1] + 1] + ([gap] if gap else [])
+        out = []
+        for k in pos + absent:
+            out += ["find %d" % k, "contains %d" % k]
+        out += ["count", "to_array"]
+        for k in (pos[0], pos[2], pos[4]):       # content restored each time
+            out += ["insert %d" % k, "find %d" % k, "remove %d" % k, "contains %d" % k, "remove_own %d" % k, "find %d" % k, "insert %d" % k]
+        for k in absent:
+            out += ["remove %d" % k]
+        out += ["iter_new", "iter_next", "iter_has_next", "iter_next", "find %d" % pos[4], "iter_del"]
+        # duplicates of both ends and of the middle while a copy is made
+        out += ["insert %d" % pos[0], "insert %d" % pos[4], "insert %d" % pos[2], "insert %d" % pos[4], "dup",
+                "b_find %d" % pos[4], "b_remove %d" % pos[4], "b_find %d" % pos[4], "find %d" % pos[4], "b_insert %d" % pos[4],
+                "b_remove %d" % pos[0], "b_find %d" % pos[0], "b_insert %d" % pos[0]]
+        out += ["adopt"] if n % 2 else ["b_del"]
+        out += ["remove %d" % pos[0], "remove %d" % pos[4], "remove_own %d" % pos[2], "remove %d" % pos[4], "find %d" % pos[4]]
+        return out
+
+    for n in sizes:
+        need = (n - 2) - len(have)
+        if need > 0:
+            lo = state["nextfill"]
+            hi = lo + 2 * (need - 1)
+            lines.append("fill %d %d 2" % (lo, hi))
+            have |= set(range(lo, hi + 1, 2))
+            state["nextfill"] = hi + 2
+        for where in ("front", "middle", "back"):
+            ks = sorted(have)
+            if where == "front" or not ks:
+                k = state["front"]
+                state["front"] -= 1
+            elif where == "middle":
+                k = next(x + 1 for x in ks[len(ks) // 2:] if x + 1 not in have)
+            else:
+                k = state["nextfill"]
+                state["nextfill"] += 2
+            lines.append("insert %d" % k)
+            have.add(k)
+            lines += battery()
+    assert max(have) + 2 <= ne and state["front"] > 1
+    return lines
+
+
+def trace_validation(ctx, exe, corrupt=None, sweep=True):
+    """Direction (B): long random histories on vectors of up to 300 elements (text family of the objects and element kind
+    - plain str / objpair(value, unique tag) - chosen per history) and the size sweep, recorded on each class and validated
+    by TLC."""
     import random, time
     from vlib import x_c03
     rnd = random.Random(ctx.seed)
-    nexec, nops = (6, 600) if ctx.tier == "quick" else (40, 1000)
+    nexec, nops = (6, 600) if ctx.tier == "quick" else (42, 1000)
     hist = [gen_history(rnd, nops, BIG_NE, BIG_LEN) for k in range(nexec)]
     total = 0
     maxsize = 0
     t0 = time.time()
     for cls in CLASSES:
-        n, mx, ok = x_c03.record_validate(ctx, exe, cls, [cls, str(BIG_NE)], hist, INIT, "VecBagTrace.tla", "VecBagTrace.cfg", corrupt=corrupt)
+        n, mx, ok = x_c03.record_validate(ctx, exe, cls, [cls, str(BIG_NE), "-1", "-1", "full"], hist, INIT, "VecBagTrace.tla",
+                                          "VecBagTrace.cfg", corrupt=corrupt)
         total += n
         maxsize = max(maxsize, mx)
-    ctx.add("trace_events_validated", total)
-    ctx.add("traces_validated_against_impl", nexec * len(CLASSES))
     ctx.cov["trace_max_vector_size"] = maxsize
     ctx.cov["trace_wall_s"] = round(time.time() - t0, 1)
+    if sweep:
+        t1 = time.time()
+        sne = SWEEP_NE[ctx.tier]
+        sw = [gen_sweep(SWEEP_SIZES[ctx.tier], sne)]
+        smax = 0
+        for ci, cls in enumerate(CLASSES):
+            # tagged (equal yet distinguishable) elements with mixed high-bit texts for two classes, plain digit strs for one
+            plain = (ci + ctx.seed) % 3 == 0
+            n, mx, ok = x_c03.record_validate(ctx, exe, cls, [cls, str(sne), "0" if plain else "1", "0" if plain else "1", "compact"],
+                                              sw, INIT, "VecBagTrace.tla", "VecBagTrace.cfg", tag="sweep-" + cls)
+            total += n
+            smax = max(smax, mx)
+        ctx.cov["sweep_sizes"] = [m for n_ in SWEEP_SIZES[ctx.tier] for m in (n_ - 1, n_, n_ + 1)]
+        ctx.cov["sweep_max_vector_size"] = smax
+        ctx.cov["sweep_wall_s"] = round(time.time() - t1, 1)
+    ctx.add("trace_events_validated", total)
+    ctx.add("traces_validated_against_impl", (nexec + (1 if sweep else 0)) * len(CLASSES))
 
 
 def run(ctx):
@@ -165,15 +247,22 @@ def run(ctx):
     g, res = objcheck.tlc_graph(ctx, "MC_VecBag.tla", cfg, workers=4)
     walks = (300, 40) if ctx.tier == "quick" else (4000, 60)
     for cls in CLASSES:
-        objcheck.replay_cover(ctx, g, [tok(INIT)], exe, cls, [cls, str(ne)], keyfn, walks=walks, jobs=4,
+        # plain digit strs, and objpair(value, unique tag) elements (EQUAL under comp yet distinguishable) whose value texts
+        # mix ASCII and high-bit first bytes
+        objcheck.replay_cover(ctx, g, [tok(INIT)], exe, cls, [cls, str(ne), "0", "0", "full"], keyfn, walks=walks, jobs=4,
                               pairs=(40000 if ctx.tier == "quick" else 400000))
+        objcheck.replay_cover(ctx, g, [tok(INIT)], exe, cls + "/tagged-elements", [cls, str(ne), "1", "1", "full"], keyfn,
+                              walks=walks, jobs=4)
     trace_validation(ctx, exe)
     ctx.cov["exhaustive"] = True
-    ctx.cov["rule"] = ("every transition TLC generates for VecBag in the bounded scope is executed once per class as the last step of a "
-                       "script whose prefix consists of already verified transitions; state (full read-back), return value, "
-                       "representation invariants and heap balance are compared after every step; plus random walks over verified "
-                       "transitions and TLC-validated recorded histories on vectors of up to 300 elements")
-    ctx.assumptions += ["elements are spif_str objects; order and equality are spif_str_comp on fixed-width decimal texts",
+    ctx.cov["rule"] = ("every transition TLC generates for VecBag in the bounded scope is executed once per class and per element kind "
+                       "(plain strs / objpair(value, unique tag) elements that compare EQUAL yet are distinguishable) as the last step of "
+                       "a script whose prefix consists of already verified transitions; state (full read-back), return value, "
+                       "representation invariants, element identity (tags) and heap balance are compared after every step, a dup must "
+                       "equal the original slot by slot including the tags; plus random walks over verified transitions, TLC-validated "
+                       "recorded histories on vectors of up to 300 elements and a TLC-validated size sweep (every operation at sizes "
+                       "n-1, n, n+1 for n = 8 .. 1024 (thorough .. 8192) at the position classes)")
+    ctx.assumptions += ["elements are spif_str objects or objpairs keyed by one; order and equality are spif_str_comp (strcmp, unsigned bytes) on texts that order like the numbers",
                         "ASan build of the current tree (clang -O1)"]
 
 
